@@ -571,6 +571,9 @@ class LibMixin:
             step = args[1] if len(args) > 1 else 1
             if isinstance(start, int) and isinstance(step, int) and step > 0:
                 return range(start, start + step * 100_000, step)  # unbounded counter; a loop that exhausts it is reported as a limit
+        if name == "datetime.datetime.fromtimestamp" and len(args) < 2 and "tz" not in kwargs:
+            # local time of the running process: environment, not program
+            return Sym(("localtime", "fromtimestamp", ("k", repr(args[0]) if args else "?")), "datetime", env_dependent=True)
         if name in native:
             a2 = [self.to_native(a, node) for a in args]
             k2 = {k: self.to_native(v, node) for k, v in kwargs.items()}
@@ -933,7 +936,10 @@ class LibMixin:
         return self._auto
 
     def lib_collections_defaultdict(self, a, kw, run, node):
-        d = DictV({}, site=self.site(node))
+        d = DefaultDictV({}, site=self.site(node))
+        d.factory = a[0] if a else None
+        if len(a) > 1 or kw:
+            self.limit("defaultdict with initial contents", node)
         return d
 
     def lib_operator_attrgetter(self, a, kw, run, node):
@@ -1035,6 +1041,9 @@ class LibMixin:
 
     def call_lib_bound_native(self, name, a, kw, run, node):
         o, rest = a[0], a[1:]
+        if isinstance(o, _dt.datetime) and o.tzinfo is None and name in ("astimezone", "timestamp"):
+            # the result depends on the time zone of the process that runs kio, not on the program: never evaluated natively
+            return Sym(("localtime", name, ("k", repr(o))), "datetime" if name == "astimezone" else "float", env_dependent=True)
         if any(not is_concrete(x) for x in list(rest) + list(kw.values())):
             return self.sym_method(o, name, rest, kw, run, node)
         a2 = [self.to_native(x, node) for x in rest]
@@ -1206,6 +1215,13 @@ class LibMixin:
                 self.limit("subscript of a weakly updated dict key", node)
             if hit:
                 return o.d[k]
+            if isinstance(o, DefaultDictV) and o.factory is not None:
+                if run.weak and o.uid not in run.weak_created:
+                    self.limit("defaultdict miss under a loop with a run-time trip count", node)
+                v = self.call(o.factory, [], {}, run, node)
+                run.emit("mutate", o, "__missing__", self.site(node))
+                o.d[k] = v
+                return v
             self.throw_key(k, node)
         if isinstance(o, (LibClass, LibFn, OpaqueV)) or (isinstance(o, ClassV) and not isinstance(k, Sym)):
             if isinstance(o, ClassV) and "enum" in o.flags:
